@@ -4,7 +4,8 @@
 (* duplicate id, conflicting definitions).                                  *)
 EXTENDS SoftCollection, Json, SequencesExt
 
-CONSTANTS MaxItems, SetSrcOn   \* SetSrcOn: the sources whose field x the caller modifies later
+CONSTANTS MaxItems, SetSrcOn,  \* SetSrcOn: the sources whose field x the caller modifies later
+          PtrOnly             \* TRUE: explore only the steps around the nullable attribute of source 1
 
 A(k, n)  == [kind |-> "attr", k |-> k, null |-> n, to1 |-> FALSE, tt |-> ""]
 R(o, t)  == [kind |-> "rel", k |-> "", null |-> FALSE, to1 |-> o, tt |-> t]
@@ -41,6 +42,12 @@ NoTyp == [name |-> "", fields |-> <<>>]
 Op(o, typ, src, id, name, def, val) ==
     [op |-> o, typ |-> typ, src |-> src, id |-> id, name |-> name, def |-> def, val |-> val]
 
+\* the nullable attribute of source 1: from nil to a value, and from a value to another one.  These
+\* steps are explored by the model only in the small universe PtrOnly (with them the full one has
+\* five times as many states); the driver applies them to every state it rebuilds in either case.
+NOps == { Op("SetSrc", NoTyp, 1, "", "n", NoDef, V(r)) : r \in {1, 2} }
+PtrAlphabet == NOps \cup { Op("Add", NoTyp, 1, "", "", NoDef, NoVal), Op("Remove", NoTyp, 0, "1", "", NoDef, NoVal),
+                           Op("SetSrc", NoTyp, 1, "", "x", NoDef, V(2)) }
 Alphabet ==
        { Op("SetType", t, 0, "", "", NoDef, NoVal) : t \in {TBase, TOther} }
   \cup { Op("Add", NoTyp, s, "", "", NoDef, NoVal) : s \in 1..Len(Srcs0) }
@@ -52,6 +59,8 @@ Alphabet ==
             p \in { <<"q", R(FALSE, "tt")>>, <<"r", R(TRUE, "tt")>>, <<"", R(TRUE, "tt")>>, <<"v", R(TRUE, "")>> } }
   \cup { Op("SetSrc", NoTyp, s, "", "x", NoDef, V(r)) : s \in SetSrcOn, r \in {1, 2} }
   \cup { Op("SetSrc", NoTyp, 1, "", "m", NoDef, Ids(<<"c">>)) }
+  \cup NOps
+
 
 VARIABLES st, ret, hist
 vars == <<st, ret, hist>>
@@ -62,7 +71,7 @@ Do(op) == /\ InDomain(st, op)
           /\ LET r == Res(st, op) IN
                /\ Len(r.post.items) <= MaxItems
                /\ st' = r.post /\ ret' = r.ret /\ hist' = Append(hist, op)
-Next == \E op \in Alphabet : Do(op)
+Next == \E op \in (IF PtrOnly THEN PtrAlphabet ELSE Alphabet \ NOps) : Do(op)
 Spec == Init /\ [][Next]_vars
 View == st
 
